@@ -185,7 +185,9 @@ def curveDistance(bez1, bez2):
     """Find the distance between two curves."""
     c = MinimumCurveDistanceFinder(bez1, bez2)
     dist, t1, t2 = c.minDist()
-    return math.sqrt(dist), t1, t2
+    # The squared distance is assembled from Bernstein products and can come
+    # out a few ulps below zero for touching curves.
+    return math.sqrt(max(dist, 0.0)), t1, t2
 
 
 if __name__ == "__main__":
